@@ -101,6 +101,47 @@ def random_ending(rng, maxlen=20):
     return fmt((minc, maxb, decl), mode, ops)
 
 
+def abandoned(rng, n_random=300):
+    """operation 10: the application abandons the payload (at every point of the delivery); the peer goes on writing
+    the payload in pieces, then a PINGREQ; the handler completes at some point.  No readiness failure, no close: the
+    connection must simply go on (the abandoned bytes go nowhere)."""
+    out = []
+    for cfg in ((4, 100, 16), (4, 8, 64), (0, 8, 16), (4, 2, 64), (8, 32768, 40), (1, 4, 24)):
+        for mode in (0, 1):
+            for first in (0, 4):
+                pieces = ["2,4"] * ((cfg[2] - first + 3) // 4 + 1)
+                for k in range(0, min(len(pieces), 5) + 1):
+                    for polled in (False, True):
+                        for done_first in (False, True):
+                            ops = ["1,%d" % first] + (["7"] if polled else []) + pieces[:k] + ["10"] + pieces[k:]
+                            ops += ["8", "9"] if done_first else ["9", "8"]
+                            out.append(fmt(cfg, mode, ops))
+    for _ in range(n_random):
+        minc = rng.choice([0, 1, 4, 4, 8, 32])
+        maxb = rng.choice([1, 2, 4, 8, 16, 64, 32768])
+        decl = rng.choice([5, 16, 16, 24, 64, 300])
+        ops = ["1,%d" % rng.choice([0, 1, 4, 8, rng.randint(0, 20)])]
+        dropped = False
+        for _k in range(rng.randint(2, 14)):
+            r = rng.random()
+            if r < 0.15 and not dropped:
+                ops.append("10")
+                dropped = True
+            elif r < 0.35:
+                ops.append("7")
+            elif r < 0.42:
+                ops.append("8")
+            elif r < 0.5:
+                ops.append("9")
+            else:
+                ops.append("2,%d" % rng.choice([1, 2, 4, 4, 8, 16, 64, 300]))
+        if not dropped:
+            ops.insert(rng.randint(1, len(ops)), "10")
+        ops += ["2,300", "9", "8"]
+        out.append(fmt((minc, maxb, decl), rng.choice([0, 1]), ops))
+    return out
+
+
 def all_cases(rng, tier="quick"):
     """(name, cases) parts; quick: sequences after `1,4` to length 4, full: to length 5"""
     full = tier != "quick"
@@ -116,7 +157,8 @@ def all_cases(rng, tier="quick"):
     return [("exhaustive-after-header-full-buffer<=%d" % after_len, after_full),
             ("exhaustive-after-header-roomy-buffer<=%d" % (after_len - 1), after_other),
             ("exhaustive-whole<=%d" % whole_len, whole),
-            ("random-any<=20", rnd), ("random-ending<=20", end)]
+            ("random-any<=20", rnd), ("random-ending<=20", end),
+            ("abandoned-payload", abandoned(rng, 1500 if full else 300))]
 
 
 if __name__ == "__main__":
